@@ -85,10 +85,13 @@ CHECKS = {
         "example tests) is generated by the tree's generator in every run and every accepted package - and its generated tests - must go build; a generator panic counts as a violation. One known finding.",
    design="4 C02", technique="symbolic execution of go/ssa + SMT over all short names (kernel); concrete generate-and-build matrix as a side-condition"),
  "C07": dict(
-   text="KERNEL CLAIM ONLY: bounded symbolic model checking of jsonpointer.ResolveCtx (the cycle/depth mechanism): from every pre-state with 0..3 distinct in-progress references built "
-        "through the real AddKey, one AddKey/Delete with a symbolic key refuses exactly in-progress keys and over-deep nesting, keeps the representation invariant, and Delete restores "
-        "the pre-state; Key() at the root keys a local reference by (root, text). 'Referencing equals inlining' and the dereferenced-spec clause are NOT decided.",
-   design="4 C07", technique="symbolic execution of go/ssa + SMT, one inductive step from reachable pre-states (kernel)"),
+   text="Bounded symbolic model checking of (a) jsonpointer.ResolveCtx (the cycle/depth mechanism): from every pre-state with 0..3 distinct in-progress references built through the real AddKey, one "
+        "AddKey/Delete with a symbolic key refuses exactly in-progress keys and over-deep nesting, keeps the representation invariant, and Delete restores the pre-state; Key() at the root keys a local "
+        "reference by (root, text); (b) the real parser.Parse on one API written as a root plus an external document with 10 reference sites (into the other file, root-relative after a reference into the other "
+        "file, relative inside the external file, shared targets, recursive schemas): for every symbolic keep/inline choice (four 5-site subsets quick, all 1024 thorough) the parsed API is the same, same-named "
+        "components of the two files (names symbolic) are not confused, reference cycles between non-schema components and dangling references are refused, schema cycles and the same pointer in two files are "
+        "accepted. One hand-written reference graph; external schema references, generated code for the two variants and the dereferenced-spec clause are NOT decided.",
+   design="4 C07", technique="symbolic execution of go/ssa + SMT: one inductive step of the cycle/depth kernel from reachable pre-states; parser.Parse under symbolic inline choices and component names with stubbed YAML environment"),
  "C11": dict(
    text="Bounded symbolic model checking of totality (no panic, termination) of the parser: (a) parser.Parse executed from SSA on a valid OpenAPI 3.1 skeleton that uses every component kind, where a "
         "symbolic selector applies one of 63 single-node faults (null / empty / dropped part) and, separately, 19 scalar fields (status key, parameter location/style/name, media-type key, schema type/format, "
